@@ -446,6 +446,12 @@ func c03Exec(c c03Case) (res c03Run) {
 		sort.Strings(open)
 		parts = append(parts, fmt.Sprintf("%s:open=%v c=%d a=%d f=%d", t.N, open, capn(closedC), capn(closedA), capn(failed)))
 	}
+	// permits held (white-box read through an overlay accessor): hidden state that
+	// must distinguish a leaked permit from a returned one
+	for _, dom := range []string{"example.org", "EXAMPLE.ORG", "refused.example", ""} {
+		a, i, sc := endp.limits.VerifInUse("127.0.0.1", dom)
+		parts = append(parts, fmt.Sprintf("permits[%s]=%d/%d/%d", dom, a, i, sc))
+	}
 	res.state = strings.Join(parts, " | ")
 	if !ended {
 		return res
